@@ -303,3 +303,36 @@ func ruleC15Wrappers(c *Ctx, r *R) {
 		r.ok(bad == "", name, fn.Pos(), bad)
 	}
 }
+
+var _ = late(func() {
+	p := properties["C15"]
+	p.Rules = append(p.Rules, &Rule{ID: "C15.snapshot-atomic", Floor: 1, Clause: "the heap iterator captures its snapshot of the backing slice and the generation at the same point (same block): a change between the two captures would go unnoticed",
+		Run: func(c *Ctx, r *R) {
+			n := 0
+			for _, fn := range c.funcsOfPkg("internal/heap") {
+				instrs(fn, func(b *ssa.BasicBlock, i int, in ssa.Instruction) {
+					call, ok := in.(*ssa.Call)
+					if !ok {
+						return
+					}
+					cal := staticCallee(&call.Call)
+					if cal == nil || cal.Name() != "Slice" || cal.Pkg == nil || !strings.HasSuffix(cal.Pkg.Pkg.Path(), "/iterator") || len(call.Call.Args) != 1 || !strings.HasSuffix(path(call.Call.Args[0]), ".a") {
+						return
+					}
+					n++
+					same := false
+					for _, x := range b.Instrs {
+						if st, ok := x.(*ssa.Store); ok {
+							if _, f, ok := storedField(st.Addr); ok && f == "gen" && strings.HasSuffix(path(st.Val), ".gen") {
+								same = true
+							}
+						}
+					}
+					r.ok(same, c.nameOf(fn)+"|snapshot-with-gen#"+itoa(n), call.Pos(), "the slice snapshot (iterator.Slice(h.a)) is taken here but the generation is recorded elsewhere: a Pop/Remove/Update between the two is not detected and the stale slice header reads a reordered array")
+				})
+			}
+			if n == 0 {
+				r.violated("internal/heap|snapshot", token.NoPos, "the heap iterator no longer snapshots h.a through iterator.Slice; the rule needs to be revisited")
+			}
+		}})
+})
